@@ -574,7 +574,7 @@ def other_emitters(run, repo):
               'labelled kJ/mol' % (show(st, 160), show(sl, 80)), owner.module, fn,
               sample='PiecewiseCovEffect.to_omkm_yaml: strengths converted to the energy unit')
     # the same in two more unit systems, the YAML entry and the CTI directive side by side
-    for e_u, q_u in (('eV', 'molecule'), ('J', 'mol')):
+    for e_u, q_u in (('eV', 'molecule'), ('J', 'mol'), ('cal', 'molec')):       # the last is the default system
         Iu = Interp(repo)
         Du = Iu.D
         uu = Frame(Iu, repo.module('pmutt'), {}, None, None).apply(
@@ -583,12 +583,15 @@ def other_emitters(run, repo):
         covu = Obj('cov', ci, attrs={'name_i': 'A(S)', 'name_j': 'B(S)', 'name': 'i_0003', 'slopes': slu,
                                      'intervals': ListV([C(0), Du.sym('b1'), Du.sym('b2')])})
         final = '%s/%s' % (e_u, q_u)
-        wantu = [s_ * (Iu.unit(final) / Iu.unit('kcal/mol')) for s_ in slu.items]
+        # the conversion kcal/mol -> <energy>/<quantity>, through the table's compound entry or through its parts
+        # (energy, then quantity): C12 verifies that the two agree within the roundings of the table's literals
+        wants = [[s_ * (Iu.unit(final) / Iu.unit('kcal/mol')) for s_ in slu.items],
+                 [s_ * (Iu.unit(e_u) / Iu.unit('kcal')) / (Iu.unit(q_u) / Iu.unit('mol')) for s_ in slu.items]]
         du = Iu.call_method(covu, 'to_omkm_yaml', [], {'units': uu})
         stu = du.d.get('strength') if isinstance(du, DictV) else None
         ents = flat(stu) if isinstance(stu, ListV) else []
         oku = len(ents) == 3 and all(isinstance(x, (str, SegStr)) and len(num_fields(Iu, x)) == 1 for x in ents)
-        oku = oku and eq_list([num_fields(Iu, x)[0] for x in ents], wantu) and all(
+        oku = oku and any(eq_list([num_fields(Iu, x)[0] for x in ents], w_) for w_ in wants) and all(
             ''.join(s_.text for s_ in Iu.seg(x).segs if s_.kind == 'lit').strip().strip('"\'').strip() == final
             for x in ents)
         run.check(oku, 'DIM.strength', 'PiecewiseCovEffect.to_omkm_yaml', 'strengths in ' + final,
@@ -599,7 +602,8 @@ def other_emitters(run, repo):
         o_c, f_c = repo.find_method(ci, 'to_cti')
         outu = Iu.call_method(covu, 'to_cti', [], {'units': uu})
         numsu = num_fields(Iu, outu) if isinstance(outu, (str, SegStr)) else []
-        run.check(eq_list(numsu, [Du.sym('b1'), Du.sym('b2')] + wantu), 'DIM.strength', 'PiecewiseCovEffect.to_cti',
+        run.check(any(eq_list(numsu, [Du.sym('b1'), Du.sym('b2')] + w_) for w_ in wants), 'DIM.strength',
+                  'PiecewiseCovEffect.to_cti',
                   'thresholds and strengths in ' + final,
                   'with Units(energy=%s, quantity=%s) the directive carries %s, expected the thresholds then the '
                   'slopes converted kcal/mol -> %s' % (e_u, q_u, show(ListV(numsu) if numsu else outu, 200), final),
